@@ -1,3 +1,4 @@
 import BufGen.AstFacts
 import BufGen.ConstsC08
 import BufGen.RuleTables
+import BufGen.Wkt
